@@ -131,6 +131,12 @@ pub fn build_image(case: &Case) -> Result<Image, String> {
         Op::Batch(vec![(9000, Some(v(18, false))), (60000, Some(v(33, false))), (25000, None)]),
         Op::Put(45000, v(12, false)),
     ]);
+    // a quarter of the images end with a record of several log fragments in the live WAL (a value
+    // larger than a 32 KiB log block, written to a key that already has a small value in the same WAL)
+    let ch = hash_json(case);
+    if ch % 4 == 0 {
+        ops.push(Op::Put(1000, v(33_000 + (ch >> 8) as u32 % 40_000, false)));
+    }
     let mut write = |db: &DB, fs: &MemFs, model: &mut Model, items: Items| -> Result<(), String> {
         let mut b = Batch::new();
         for (k, v) in &items {
@@ -560,15 +566,9 @@ fn eval_inner(p: &CorruptPoint) -> Result<EvalInfo, (String, bool)> {
     Ok(info)
 }
 
-/// Is the damaged byte the length (bytes 4,5) or type (byte 6) of a fragment header in a manifest?
-/// The log format's checksum covers only the fragment payload.
-fn is_manifest_header_byte(p: &CorruptPoint) -> bool {
-    if !p.file.contains("MANIFEST") {
-        return false;
-    }
-    let Mutation::Byte { offset, .. } = &p.mutation else { return false };
-    let Some(data) = p.image.files.get(&p.file) else { return false };
-    let data = &data.0;
+/// Fragments of a log file as (offset of the 7-byte header, payload length, type byte).
+pub fn log_fragments(data: &[u8]) -> Vec<(usize, usize, u8)> {
+    let mut out = vec![];
     let mut off = 0usize;
     while off + 7 <= data.len() {
         let left = 32768 - off % 32768;
@@ -576,11 +576,35 @@ fn is_manifest_header_byte(p: &CorruptPoint) -> bool {
             off += left;
             continue;
         }
-        if *offset >= off + 4 && *offset <= off + 6 {
+        let len = u16::from_le_bytes([data[off + 4], data[off + 5]]) as usize;
+        out.push((off, len, data[off + 6]));
+        off += 7 + len;
+    }
+    out
+}
+
+/// The known finding `log-fragment-header-not-checksummed`: the checksum of a log fragment covers
+/// only its payload. Damage to a manifest fragment header is undetectable by the format in exactly
+/// two cases: the type byte changed, or a length byte changed so that the fragment now extends
+/// beyond the end of the file (indistinguishable from a torn tail). Any other length (shorter, or
+/// longer but still inside the file) makes the payload checksum fail and must be detected.
+fn is_manifest_header_byte(p: &CorruptPoint) -> bool {
+    if !p.file.contains("MANIFEST") {
+        return false;
+    }
+    let Mutation::Byte { offset, value } = &p.mutation else { return false };
+    let Some(data) = p.image.files.get(&p.file) else { return false };
+    let data = &data.0;
+    for (off, _len, _ty) in log_fragments(data) {
+        if *offset == off + 6 {
             return true;
         }
-        let len = u16::from_le_bytes([data[off + 4], data[off + 5]]) as usize;
-        off += 7 + len;
+        if *offset == off + 4 || *offset == off + 5 {
+            let mut lb = [data[off + 4], data[off + 5]];
+            lb[*offset - off - 4] = *value;
+            let new_len = u16::from_le_bytes(lb) as usize;
+            return off + 7 + new_len > data.len();
+        }
     }
     false
 }
@@ -731,6 +755,34 @@ pub fn worker(ctx: &WorkerCtx) -> WorkerResult {
                 mix(ch, i) % keep as u64 == 0
             });
         }
+        // never sampled away: the header of every log fragment (WAL and manifest) - each type value,
+        // and lengths 0, one less, one more, and far beyond the end of the file
+        for (path, data) in &img.files {
+            if !(path.contains("MANIFEST") || path.contains("/wal/")) {
+                continue;
+            }
+            for (off, len, ty) in log_fragments(&data.0) {
+                for t in 0u8..=5 {
+                    if t != ty {
+                        points.push((path.clone(), Mutation::Byte { offset: off + 6, value: t }));
+                    }
+                }
+                let lo = (len & 0xff) as u8;
+                let hi = (len >> 8) as u8;
+                for v in [0u8, lo.wrapping_sub(1), lo.wrapping_add(1)] {
+                    if v != lo {
+                        points.push((path.clone(), Mutation::Byte { offset: off + 4, value: v }));
+                    }
+                }
+                for v in [0u8, hi.wrapping_add(1), 0xff] {
+                    if v != hi {
+                        points.push((path.clone(), Mutation::Byte { offset: off + 5, value: v }));
+                    }
+                }
+            }
+        }
+        points.sort_by(|a, b| (&a.0, format!("{:?}", a.1)).cmp(&(&b.0, format!("{:?}", b.1))));
+        points.dedup();
         for (file, mutation) in points {
             let p = CorruptPoint { image: img.clone(), file: file.clone(), mutation: mutation.clone() };
             let out = guarded(&p);
